@@ -33,6 +33,9 @@ func Gen(t *rapid.T, p Profile) Spec {
 		MaxRestarts: rapid.IntRange(0, p.MaxBudget).Draw(t, "budget"),
 		Chain:       rapid.IntRange(0, p.MaxChain).Draw(t, "chain"),
 	}
+	if s.Chain >= 1 {
+		s.EmptyMW = rapid.IntRange(0, 3).Draw(t, "empty_mw") == 0
+	}
 	if s.Chain >= 2 {
 		s.Split = rapid.IntRange(0, s.Chain-1).Draw(t, "split")
 	}
